@@ -78,9 +78,12 @@ pub fn generate(seed: u64, index: u64, thorough: bool) -> Scenario {
             },
         });
     }
+    add_zero_sign_pairs(&mut sc, &mut Rng::new(mix(seed, "C10-zero-sign", index)));
+    maybe_marathon(&mut sc, seed, index);
+    let is_marathon = sc.ops.iter().any(|o| matches!(o, Op::Marathon { .. }));
     // concurrent callers (own PRNG stream: every other scenario stays as it was)
     let mut r2 = Rng::new(mix(seed, "C10-concurrent", index));
-    if r2.chance(if thorough { 0.12 } else { 0.08 }) {
+    if r2.chance(if thorough { 0.12 } else { 0.08 }) && !is_marathon {
         make_concurrent(&mut sc, &mut r2);
     }
     sc
@@ -387,6 +390,27 @@ fn one_pass<T: Sc, F: Factory<T>>(sc: &Scenario, rep: &mut RunReport, first: boo
                     }
                     if faulted {
                         had_failed_update = true;
+                    }
+                }
+            }
+            Op::Marathon { count, alphas } => {
+                prev_jac = None;
+                state_clean = !faulted;
+                rep.probe("marathons");
+                rep.probe_n("marathon_updates", *count as u64);
+                if let (Some(a), false) = (marathon_last(*count, alphas), faulted) {
+                    had_other_alpha = true;
+                    let alpha: Vec<T> = a.iter().map(|v| T::of(v.0)).collect();
+                    match guarded(|| fresh::<T, F>(&r.world, &alpha, st.par_after, false)) {
+                        Ok(Ok(fr)) => {
+                            compared += 1;
+                            if fr.snap != *snap_now {
+                                rep.violate(sc, "HISTORY_DEPENDENCE", "Marathon", format!("after {count} consecutive updates (op {}) the problem differs from a fresh problem at the parameters applied last", st.op));
+                            }
+                            sig.push_str(&format!("[marathon{}]", (*count as f64).log2() as u32));
+                        }
+                        Ok(Err(e)) => rep.eat_str(&e),
+                        Err(p) => rep.violate(sc, "PANIC", &format!("fresh@{}", panic_site(&p)), p),
                     }
                 }
             }
